@@ -131,11 +131,11 @@ func textOf(v any) string {
 
 // ---------- Go values -> protocol Val (schema order of Spec/Wire.lean) ----------
 
-func vBytes(b []byte) M  { return M{"bytes": hx(b)} }
-func vStr(s string) M    { return M{"str": hx([]byte(s))} }
-func vBool(b bool) M     { return M{"bool": b} }
-func vInt(i int64) M     { return M{"int": i} }
-func vObj(fs ...any) M   { return M{"obj": fs} }
+func vBytes(b []byte) M { return M{"bytes": hx(b)} }
+func vStr(s string) M   { return M{"str": hx([]byte(s))} }
+func vBool(b bool) M    { return M{"bool": b} }
+func vInt(i int64) M    { return M{"int": i} }
+func vObj(fs ...any) M  { return M{"obj": fs} }
 func vAny(m map[string]any) M {
 	if m == nil {
 		return M{"any": nil}
@@ -267,8 +267,8 @@ func genTimeout(r *RNG) time.Duration {
 type wireCase struct {
 	ty   string
 	val  M
-	text []byte       // json.Marshal(v)
-	ptxt []byte       // json.Marshal(&v)
+	text []byte                  // json.Marshal(v)
+	ptxt []byte                  // json.Marshal(&v)
 	back func([]byte) (M, error) // Unmarshal text into a fresh value, converted to Val
 }
 
@@ -336,7 +336,7 @@ func genWire(r *RNG) wireCase {
 		})
 	case 5:
 		v := webauthn.PublicKeyAssertionCredential{ID: genStrW(r), Type: webauthn.PublicKeyCredentialType(genStrW(r)), RawID: genBytesW(r),
-			Response: webauthn.AuthenticatorAssertionResponse{ClientDataJSON: genBytesW(r), AuthenticatorData: genBytesW(r), Signature: genBytesW(r), UserHandle: genBytesW(r)},
+			Response:               webauthn.AuthenticatorAssertionResponse{ClientDataJSON: genBytesW(r), AuthenticatorData: genBytesW(r), Signature: genBytesW(r), UserHandle: genBytesW(r)},
 			ClientExtensionResults: genExt(r)}
 		return mk("assertionCredential", v, &v, vAssertionCred(v), func(b []byte) (M, error) {
 			var x webauthn.PublicKeyAssertionCredential
